@@ -146,19 +146,28 @@ Definition shrink_of (fx : bool) (f : oforest) : res oforest :=
   else if existsb multi_o f then Exn KeyError
   else Ok (map (shrink_o fx) f).
 
-Definition step_o (fx : bool) (D : dict) (o : op) (f : oforest) : res oforest :=
+(* the working object and the saved ones; a deep copy of an ownership tree is the
+   same tree *)
+Definition ostate := (oforest * list oforest)%type.
+
+Definition step_os (fx : bool) (D : dict) (o : op) (st : ostate) : res ostate :=
+  let '(f, sv) := st in
   match o with
-  | OpExpand => expand_of fx D f
-  | OpShrink => shrink_of fx f
-  | OpCopy => Ok f
-  | OpValidate => Ok f
+  | OpExpand => let* f' := expand_of fx D f in Ok (f', sv)
+  | OpShrink => let* f' := shrink_of fx f in Ok (f', sv)
+  | OpCopy => Ok (f, f :: sv)
+  | OpValidate => Ok (f, sv)
+  | OpSwap => match sv with [] => Ok (f, sv) | g :: r => Ok (g, f :: r) end
   end.
 
-Fixpoint run_o (fx : bool) (D : dict) (ops : list op) (f : oforest) : res oforest :=
+Fixpoint run_os (fx : bool) (D : dict) (ops : list op) (st : ostate) : res ostate :=
   match ops with
-  | [] => Ok f
-  | o :: ops' => let* f' := step_o fx D o f in run_o fx D ops' f'
+  | [] => Ok st
+  | o :: ops' => let* st' := step_os fx D o st in run_os fx D ops' st'
   end.
+
+Definition run_o (fx : bool) (D : dict) (ops : list op) (f : oforest) : res oforest :=
+  let* st := run_os fx D ops (f, []) in Ok (fst st).
 
 (* per tag in get_all_tags order: (short_tag, has cache, _expanded) *)
 Fixpoint flags_o (n : onode) : list (str * (bool * bool)) :=
